@@ -30,10 +30,11 @@ Inductive blk :=
 | Leaf (marker : nat) (more : nat)                       (* a paragraph of 1 + more lines *)
 | Quote (marker : nat) (bs : list blk)                   (* "> " block quote *)
 | ListItem (marker : nat) (bs : list blk)                (* "- " list item *)
-| Div (marker : nat) (blank_before : bool) (blank_after : nat) (bs : list blk)     (* plain ::: container *)
+| Div (marker : nat) (blank_before : nat) (blank_after : nat) (bs : list blk)      (* plain ::: container *)
 | Dir (marker : nat) (fk : fencekind) (os : optstyle) (nopts : nat)
-      (blank_before : bool) (blank_after : nat) (bs : list blk).
-      (* admonition-type directive; the option block has 1 + nopts option lines (plus 2 delimiters for dash) *)
+      (blank_before : nat) (blank_after : nat) (bs : list blk).
+      (* admonition-type directive; the option block has 1 + nopts option lines (plus 2 delimiters for dash);
+         [blank_before] blank lines separate the opening line / option block from the body, [blank_after] follow it *)
 
 (* ---------- layout ---------- *)
 
@@ -77,7 +78,6 @@ Definition opt_lines (os : optstyle) (nopts : nat) : list str :=
   end.
 
 Definition blank_lines (n : nat) : list str := repeat [] n.
-Definition blank_if (b : bool) : list str := if b then [[]] else [].
 
 Definition prefix_all (p : str) (ls : list str) : list str := map (fun l => p ++ l) ls.
 Definition prefix_item (ls : list str) : list str :=
@@ -99,13 +99,13 @@ Fixpoint print (b : blk) : list str :=
   | ListItem _ bs => prefix_item (seq bs)
   | Div _ bb ba bs =>
       let f := repeat c_colon (2 + colon_height b) in
-      (f ++ div_name) :: blank_if bb ++ seq bs ++ blank_lines ba ++ [f]
+      (f ++ div_name) :: blank_lines bb ++ seq bs ++ blank_lines ba ++ [f]
   | Dir _ fk os nopts bb ba bs =>
       let f := match fk with
                | Backtick => repeat c_bt (2 + bt_height b)
                | ColonFence => repeat c_colon (2 + colon_height b)
                end in
-      (f ++ dir_name) :: opt_lines os nopts ++ blank_if bb ++ seq bs ++ blank_lines ba ++ [f]
+      (f ++ dir_name) :: opt_lines os nopts ++ blank_lines bb ++ seq bs ++ blank_lines ba ++ [f]
   end.
 
 Fixpoint print_seq (bs : list blk) : list str :=
@@ -122,9 +122,9 @@ Fixpoint height (b : blk) : nat :=
   match b with
   | Leaf _ more => S more
   | Quote _ bs | ListItem _ bs => hs bs
-  | Div _ bb ba bs => (1 + (if bb then 1 else 0) + hs bs + ba + 1)%nat
+  | Div _ bb ba bs => (1 + bb + hs bs + ba + 1)%nat
   | Dir _ _ os nopts bb ba bs =>
-      (1 + length (opt_lines os nopts) + (if bb then 1 else 0) + hs bs + ba + 1)%nat
+      (1 + length (opt_lines os nopts) + bb + hs bs + ba + 1)%nat
   end.
 
 (* ---------- the true lines, by construction ---------- *)
@@ -139,9 +139,9 @@ Fixpoint locate (start : nat) (b : blk) : list (nat * nat) :=
   match b with
   | Leaf m _ => [(m, start)]
   | Quote m bs | ListItem m bs => (m, start) :: seq start bs
-  | Div m bb _ bs => (m, start) :: seq (start + 1 + (if bb then 1 else 0))%nat bs
+  | Div m bb _ bs => (m, start) :: seq (start + 1 + bb)%nat bs
   | Dir m _ os nopts bb _ bs =>
-      (m, start) :: seq (start + 1 + length (opt_lines os nopts) + (if bb then 1 else 0))%nat bs
+      (m, start) :: seq (start + 1 + length (opt_lines os nopts) + bb)%nat bs
   end.
 
 Fixpoint locate_seq (start : nat) (bs : list blk) : list (nat * nat) :=
@@ -169,8 +169,8 @@ Variable sg : dsig.            (* the directive class *)
 Variable first_line : str.     (* the text after the directive name (empty in [print]) *)
 
 (* the content of the fence token, as lines (O_fence_content) *)
-Definition dir_content (os : optstyle) (nopts : nat) (bb : bool) (ba : nat) (bs : list blk) : list str :=
-  opt_lines os nopts ++ blank_if bb ++ print_seq bs ++ blank_lines ba.
+Definition dir_content (os : optstyle) (nopts : nat) (bb : nat) (ba : nat) (bs : list blk) : list str :=
+  opt_lines os nopts ++ blank_lines bb ++ print_seq bs ++ blank_lines ba.
 
 (* [base] = what has been added to token.map so far (lineno of the enclosing nested_render_text, 0 at top level);
    [idx] = token.map[0] as given by the parser = index of the block's first line in the parsed text (O_map) *)
@@ -191,7 +191,7 @@ Fixpoint lines_blk (base : Z) (idx : nat) (b : blk) : res (list (nat * Z)) :=
       do r <- seq base idx bs; Ok ((m, line) :: r)
   | Div m bb _ bs =>
       (* nested_render_text(token.content, token_line(token, 0)) *)
-      do r <- seq line (if bb then 1 else 0)%nat bs; Ok ((m, line) :: r)
+      do r <- seq line bb bs; Ok ((m, line) :: r)
   | Dir m fk os nopts bb ba bs =>
       let position := line in
       let content_lines := dir_content os nopts bb ba bs in
@@ -211,7 +211,7 @@ Fixpoint lines_blk (base : Z) (idx : nat) (b : blk) : res (list (nat * Z)) :=
           (* O_map for the nested parse of "\n".join(body): the child blocks are where they are in [body];
              that is only defined when [body] is the content from some line [d] on *)
           let d := (length content_lines - length body)%nat in
-          let first_child := (length (opt_lines os nopts) + (if bb then 1 else 0) + prepended_lines)%nat in
+          let first_child := (length (opt_lines os nopts) + bb + prepended_lines)%nat in
           if lines_eqb body (skipn d content_lines) && Nat.leb d first_child then
             do r <- seq (position + content_offset)%Z (first_child - d)%nat bs;
             Ok ((m, position) :: r)
